@@ -168,6 +168,19 @@ mut('close-overwrites-caller-field', 'File.cpp', [["        fileStatistics.objec
 mut('queue-capacity-off-by-one', 'ObjectQueue.cpp', [["        static_cast<uint32_t>(m_queue.size()) < m_bufferSize;", "        static_cast<uint32_t>(m_queue.size()) <= m_bufferSize;"]],
     ['C16'], ['Q3|write|capacity-exact'], 'the queue admits one object more than its capacity')
 
+mut('count-before-early-return', 'File.cpp', [["    /* compress */\n    if (compressionLevel == 0) {", "    /* statistics */\n    currentUncompressedFileSize +=\n        logContainer.internalHeaderSize() +\n        logContainer.uncompressedFileSize;\n\n    /* nothing left: do not write an empty container while the thread is still running */\n    if ((logContainer.uncompressedFileSize == 0) && m_compressedFileThreadRunning)\n        return;\n\n    /* compress */\n    if (compressionLevel == 0) {"],
+                                                 ["    /* statistics */\n    currentUncompressedFileSize +=\n        logContainer.internalHeaderSize() +\n        logContainer.uncompressedFileSize;\n\n    /* drop old data */", "    /* drop old data */"]],
+    ['C05'], ['H1|File::uncompressedFile2CompressedFile'], 'a container that is never written has already been counted')
+mut('factory-count-guard', 'File.cpp', [["    ObjectHeaderBase * obj = nullptr;\n\n    switch (type) {", "    ObjectHeaderBase * obj = nullptr;\n\n    if (static_cast<uint32_t>(type) >= static_cast<uint32_t>(ObjectType::ATTRIBUTE_EVENT))\n        return obj;\n\n    switch (type) {"]],
+    ['C17'], ['D1|code|ATTRIBUTE_EVENT'], 'a range guard in front of the switch is off by one: the last code yields nothing')
+mut('base-init-reads-member', 'LinMessage2.cpp', [["    ObjectHeader(ObjectType::LIN_MESSAGE2, 1) {", "    ObjectHeader(ObjectType::LIN_MESSAGE2, apiMajor) {"]],
+    ['C17', 'C14'], ['D6|LinMessage2'], 'base constructor argument read from a member that is initialised later')
+mut('type-through-reference', 'File.cpp', [["    /* statistics (before the hand-over: the application may delete obj as soon as it is queued) */\n    if (obj->objectType != ObjectType::Unknown115)\n        currentObjectCount++;\n\n    /* push data into readWriteQueue */\n    m_readWriteQueue.write(obj);\n",
+                                           "    /* remember the type before the hand-over */\n    const ObjectType & objectType = obj->objectType;\n\n    /* push data into readWriteQueue */\n    m_readWriteQueue.write(obj);\n\n    /* statistics */\n    if (objectType != ObjectType::Unknown115)\n        currentObjectCount++;\n"]],
+    ['C11'], ['O1|File::uncompressedFile2ReadWriteQueue|obj'], 'a reference into the object is read after the hand-over')
+mut('drained-accessor', 'File.cpp', [["            file->uncompressedFile2CompressedFile();\n\n            /* check for eof */\n            if (!file->m_uncompressedFile.good())", "            file->uncompressedFile2CompressedFile();\n\n            /* check for eof */\n            if (!file->m_uncompressedFile.good() || (file->m_uncompressedFile.fileSize() == static_cast<std::streamsize>(file->m_uncompressedFile.tellg())))"]],
+    ['C14'], ['K11|File::compressedFileWriteThread'], 'output depends on which worker reaches the end of data first')
+
 # ------------------------------------------------------------------ benign refactorings (must stay silent)
 ALL_LAYOUT = ['C01', 'C02', 'C03', 'C10', 'C14']
 ben('reorder-size-terms', 'AppText.cpp', [["        sizeof(source) +\n        sizeof(reservedAppText1) +", "        sizeof(reservedAppText1) +\n        sizeof(source) +"]], ALL_LAYOUT)
